@@ -86,6 +86,12 @@ def spec (caseLine implLine : String) : String :=
   | some c =>
     if missing c.table c.line then "ok" else     -- stale oracle (only while shrinking): model and harness print ORACLE_MISS
     if implLine = "ORACLE_MISS" then "ok" else
+    -- the harness also sends every accepted metric line through the parser's per-datagram routine (with and without
+    -- ignore-host) and marks a metric that does not carry the lexer's fields, its tags in order (minus the first host: tag
+    -- under ignore-host), the source and the receive time
+    match implLine.splitOn " PARSER-DIFF " with
+    | [_, d] => "FAIL parser-fields the parser's per-datagram routine hands back another metric than the lexer produced: " ++ d
+    | _ =>
     match specWF c implLine with
     | "ok" => specGrammar c implLine
     | bad => bad
